@@ -516,15 +516,13 @@ def all_rows(report, proj):
 # ----------------------------------------------------------------------------------------------------------------------------------
 # cases
 # ----------------------------------------------------------------------------------------------------------------------------------
-K_CBO, K_PATH, K_EXPL = "cbo-config-section-ignored", "config-at-path-not-discovered", "explicit-builtin-default-loses-to-config"
+# The only recorded open difference (F39).  Repaired and therefore plain VIOLATIONs again when they recur: check_coupling ignoring the
+# [cbo] section (F36, scenarios cfg-*), the configuration file not looked up from the `path` argument (F37, scenario cfg-path), an
+# explicit argument with the value of the built-in default losing to the file (F38, cfgx-cwd / cfgm-cwd), min_complexity above the file's
+# max_complexity rejected (F40, cfg-* / cfgx-cwd).
 K_NONPY = "explicit-non-python-file"
-K_MINMAX = "min-complexity-above-configured-max"
 NONPY_TOOLS = ("check_complexity", "find_dead_code", "check_coupling", "check_cohesion")
 SINGLE = ("check_complexity", "find_dead_code", "detect_clones", "check_coupling", "check_cohesion")
-
-
-def without(cfg, *sections):
-    return {k: dict(v) for k, v in cfg.items() if k not in sections}
 
 
 def with_key(cfg, sec, key, val):
@@ -534,9 +532,8 @@ def with_key(cfg, sec, key, val):
 
 
 class Scenario:
-    def __init__(self, name, proj, cwd, cfg, env_config=None, discovered=True):
+    def __init__(self, name, proj, cwd, cfg, env_config=None):
         self.name, self.proj, self.cwd, self.cfg, self.env_config = name, proj, cwd, cfg, env_config
-        self.discovered = discovered      # does the server's own discovery (working directory / PYSCN_CONFIG) see the project's config?
         self.eff = {"min_complexity": cfg.get("output", {}).get("min_complexity", 1),
                     "min_severity": cfg.get("dead_code", {}).get("min_severity", "warning"),
                     "similarity": cfg.get("clones", {}).get("similarity_threshold"),
@@ -569,31 +566,6 @@ def cli_flags(sc, tool, args, altcfg):
         if an:
             fl += ["--select", ",".join(ANALYSES.get(a, a) for a in an)]
     return fl, cfg
-
-
-def known_hypothesis(sc, tool, args):
-    """(class, flags, config) : the recorded defect this call may run into, and the command line that states the options the tool is
-    believed to use instead.  The case is a KNOWN-FINDING only if the tool's answer equals THAT command line's findings."""
-    if tool in SINGLE and not sc.discovered:
-        dflt = Scenario(sc.name, sc.proj, sc.cwd, {})       # the thresholds of the default configuration
-        fl, cfg = cli_flags(dflt, tool, args, None)
-        return K_PATH, fl, (cfg or {}), dflt
-    if tool == "check_coupling" and "cbo" in sc.cfg:
-        return K_CBO, ["--select", "cbo"], without(sc.cfg, "cbo"), sc
-    if tool == "check_complexity" and args.get("min_complexity") == 1 and sc.eff["min_complexity"] != 1:
-        return K_EXPL, ["--select", "complexity", "--min-complexity", str(sc.eff["min_complexity"])], None, sc
-    if tool == "find_dead_code" and args.get("min_severity") == "warning" and sc.eff["min_severity"] != "warning":
-        return K_EXPL, ["--select", "deadcode", "--min-severity", sc.eff["min_severity"]], None, sc
-    if tool == "detect_clones" and (args.get("similarity_threshold") == 0.65 and sc.eff["similarity"] not in (None, 0.65)
-                                    or args.get("min_lines") == 5 and sc.cfg.get("clones", {}).get("min_lines", 10) != 5):
-        fl = ["--select", "clones"]
-        if "similarity_threshold" in args and args["similarity_threshold"] != 0.65:
-            fl += ["--clone-threshold", repr(args["similarity_threshold"])]
-        cfg = None
-        if "min_lines" in args and args["min_lines"] != 5:
-            cfg = with_key(sc.cfg, "clones", "min_lines", args["min_lines"])
-        return K_EXPL, fl, cfg, sc
-    return None
 
 
 class Runner:
@@ -892,7 +864,7 @@ def run(ck, root, thorough):
     scenarios = [
         (plain, 2),
         (Scenario("cfg-cwd (.pyscn.toml in the project; server started in the project)", P2, P2, CONFIG_BASE), 2 if thorough else 1),
-        (Scenario("cfg-path (.pyscn.toml in the project; server started outside it)", P2, N, CONFIG_BASE, discovered=False), 2 if thorough else 1),
+        (Scenario("cfg-path (.pyscn.toml in the project; server started outside it)", P2, N, CONFIG_BASE), 2 if thorough else 1),
         (Scenario("cfg-env (PYSCN_CONFIG=<file> / --config <file>; default config in the project)", P1, N, CONFIG_BASE,
                   env_config=os.path.join(P2, ".pyscn.toml")), 2 if thorough else 1),
         (Scenario("cfgx-cwd (config also sets min_complexity, min_severity, similarity_threshold; server started in the project)", P3, P3, cfgx), 2 if thorough else 1),
@@ -924,18 +896,14 @@ def run(ck, root, thorough):
             tgt = os.path.join(sc.proj, target) if target else sc.proj
             fl, cfg = cli_flags(sc, tool, args, None)
             main = R.cli(sc, fl, cfg, tgt)
-            hyp = known_hypothesis(sc, tool, args)
-            alt = None
-            if hyp:
-                alt = (hyp[0], R.cli(sc, hyp[1], hyp[2], tgt), hyp[3])
             # the summary mode prints the lines of `pyscn check`: compare them literally (paths made relative)
             chk = None
-            if mode == "summary" and sc.discovered and not sc.env_config and not target:
+            if mode == "summary" and not sc.env_config and not target:
                 if tool == "check_complexity" and set(args) <= {"max_complexity"}:
                     chk = R.pool.submit(cli_check, base, ["--select", "complexity"] + (["--max-complexity", str(args["max_complexity"])] if args else []), tgt)
                 elif tool == "find_dead_code" and args == {"min_severity": "critical"} and "dead_code" not in sc.cfg:
                     chk = R.pool.submit(cli_check, base, ["--select", "deadcode"], tgt)
-            clis.append((main, alt, chk))
+            clis.append((main, chk))
         jobs.append((sc, cases, calls, fut, clis))
         stats["mcp_scenarios"].append({"name": sc.name, "cases": len(cases)})
     # relative paths: server and command line both started in the project, path "." / a file / a sub-directory (sequential: the
@@ -968,7 +936,7 @@ def run(ck, root, thorough):
     e_cli = [R.pool.submit(cli_analyze, base, argv, None) for t, a, argv, l in ecases]
 
     # ---- 2. decide
-    def decide(sc, tool, args, target, mode, call_args, answer, main, alt):
+    def decide(sc, tool, args, target, mode, call_args, answer, main):
         stats["mcp_comparisons"][tool] += 1
         stats["mcp_modes"][mode] += 1
         rc, report, cerr, cmd = main
@@ -981,14 +949,6 @@ def run(ck, root, thorough):
             if answer["is_error"] and (rc != 0 or not report):
                 stats["mcp_both_reject"] += 1
                 return
-            cfg_max = sc.cfg.get("complexity", {}).get("max_complexity", 0) if sc.discovered else 0
-            if (answer["is_error"] and tool == "check_complexity" and "max_complexity" not in args and args.get("min_complexity", 0) > cfg_max > 0
-                    and "minimum complexity cannot be greater than maximum complexity" in answer["text"]):
-                kf = ck.match_known({"tool": tool, "class": K_MINMAX})
-                if kf:
-                    ck.known_finding(kf)
-                    stats["mcp_known_finding_cases"][kf["id"]] = stats["mcp_known_finding_cases"].get(kf["id"], 0) + 1
-                    return
             violation("MCP %s %s while the command line %s for the same path and options (%s)" % (
                 tool, "fails (%s)" % answer["text"][:200] if answer["is_error"] else "answers",
                 "succeeds" if rc == 0 and report else "fails (exit %s: %s)" % (rc, cerr[-200:]), json.dumps(call_args)), dict(rp, answer=answer["text"][:2000], cli_exit=rc))
@@ -1005,21 +965,13 @@ def run(ck, root, thorough):
         diff = compare(sc, tool, args, mode, m, report)
         if diff is None:
             return
-        if alt is not None:
-            cls, (arc, areport, aerr, acmd), asc = alt
-            kf = ck.match_known({"tool": tool, "class": cls})
-            if kf and areport and compare(asc, tool, args, mode, m, areport) is None:
-                ck.known_finding(kf)
-                stats["mcp_known_finding_cases"][kf["id"]] = stats["mcp_known_finding_cases"].get(kf["id"], 0) + 1
-                return
-            rp["known_finding_hypothesis"] = {"class": cls, "command_line_the_tool_was_expected_to_equal_instead": " ".join(acmd)}
         violation("MCP %s returns different findings than the command line for the same path and options [%s; arguments %s; CLI: %s]: %s"
                      % (tool, sc.name.split(" ")[0], json.dumps(args), " ".join(cmd[1:]), diff), dict(rp, difference=diff))
 
     for sc, cases, calls, fut, clis in jobs:
         answers = fut.result()
-        for (tool, args, target, mode), (ctool, cargs), answer, (main, alt, chk) in zip(cases, calls, answers, clis):
-            decide(sc, tool, args, target, mode, cargs, answer, main.result(), (alt[0], alt[1].result(), alt[2]) if alt else None)
+        for (tool, args, target, mode), (ctool, cargs), answer, (main, chk) in zip(cases, calls, answers, clis):
+            decide(sc, tool, args, target, mode, cargs, answer, main.result())
             if chk is not None and "text" in answer and not answer["is_error"]:
                 crc, cerr, ccmd = chk.result()
                 stats["mcp_check_line_comparisons"] += 1
@@ -1033,7 +985,7 @@ def run(ck, root, thorough):
                     violation("MCP %s (summary) lists other issues than `pyscn %s` prints for the same path and options: %s" % (
                         tool, " ".join(ccmd[1:]), first_row_diff(got or [], want)), replay_of(sc, tool, cargs, ccmd, {"mcp_issues": got, "check_lines": want}))
     for (t, a, tg, m), answer, main in zip(rel_cases, rel_fut.result(), rel_cli_fut.result()):
-        decide(rel_sc, t, a, tg, m, dict(a, path=tg, output_mode=m), answer, main, None)
+        decide(rel_sc, t, a, tg, m, dict(a, path=tg, output_mode=m), answer, main)
     answers = e_fut.result()
     for (tool, args, argv, label), answer, fut in zip(ecases, answers, e_cli):
         stats["mcp_error_cases"][tool] += 1
